@@ -126,6 +126,12 @@ func event(op, path string, data []byte, off int64) {
 	Events = append(Events, Event{Op: op, Path: path, Data: data, Off: off})
 }
 
+// Note records a non-file-system event in the same log (process launches, stub calls).
+func Note(op, what string) { event(op, what, nil, 0) }
+
+// NewPipe returns a write end that swallows what is written to it.
+func NewPipe() *File { return &File{name: "|pipe", std: 2} }
+
 // Lookup returns the live node for path, or nil.
 func Lookup(path string) *Node {
 	for _, n := range Nodes {
